@@ -330,4 +330,14 @@ theorem joinLines_groupLinesGo (acc : List Chunk) (cs : List (Option Chunk)) (ch
       rw [ih]
       simp
 
+/-- a line that has been closed by a marker is not affected by anything that follows -/
+theorem groupLinesGo_split (acc : List Chunk) (a b : List (Option Chunk)) :
+    groupLinesGo acc (a ++ none :: b) = groupLinesGo acc (a ++ [none]) ++ groupLinesGo [] b := by
+  induction a generalizing acc with
+  | nil => simp [groupLinesGo]
+  | cons x r ih =>
+    cases x with
+    | none => simp [groupLinesGo, ih]
+    | some d => simpa [groupLinesGo] using ih _
+
 end PPrint
